@@ -787,6 +787,29 @@ fn model_and_conformance(ctx: &Ctx) {
     ctx.extra("conformance", json!({"all_model_paths_for_N_up_to": all_paths_upto, "paths_replayed": n_paths, "transition_cover_replays": n_cover}));
 }
 
+static PRECISION_REPORTER_ITERS: std::sync::atomic::AtomicU64 = std::sync::atomic::AtomicU64::new(0);
+static PRECISION_HANG: AtomicBool = AtomicBool::new(false);
+
+/// Run `f` (which calls run_progress) with a pass-through scheduling handler that turns the reporter's sleep into
+/// a yield and bounds the reporter's iterations; returns (result, reporter_never_exited).
+pub fn with_bounded_reporter<R>(f: impl FnOnce() -> R) -> (R, bool) {
+    PRECISION_REPORTER_ITERS.store(0, Ordering::SeqCst);
+    PRECISION_HANG.store(false, Ordering::SeqCst);
+    verif::set_sched(Some(Arc::new(|label, _| {
+        if label == "reporter.top" {
+            let n = PRECISION_REPORTER_ITERS.fetch_add(1, Ordering::SeqCst);
+            if n > 3_000_000 {
+                PRECISION_HANG.store(true, Ordering::SeqCst);
+                panic!("reporter did not exit within 3e6 iterations");
+            }
+        }
+        0
+    })));
+    let r = f();
+    verif::set_sched(None);
+    (r, PRECISION_HANG.swap(false, Ordering::SeqCst))
+}
+
 // ------------------------------------------------------------------ layer 3: faults and precision
 
 fn receiver_faults(ctx: &Ctx) {
@@ -933,6 +956,7 @@ fn precision_grid(ctx: &Ctx) {
                 let c = cube(&t);
                 c.iter().flat_map(|ch| ch[1..].iter().flatten().map(|x| x.to_bits()).collect::<Vec<_>>()).collect::<Vec<u64>>()
             });
+            PRECISION_REPORTER_ITERS.store(0, Ordering::SeqCst);
             let b = catch(|| nuts_build::<$T, $B>(2, Some(5), false).run_progress(5, 2).map(|(t, st)| (tensor_bits(&t), v(&t), stats_bits(&st))).map_err(|e| e.to_string()));
             match (a, b) {
                 (Err(m), _) => ctx.violation(Violation::new(format!("C10:panic(NUTS::run {})", $name), m, case)),
@@ -964,14 +988,22 @@ fn precision_grid(ctx: &Ctx) {
             ctx.transitions(4);
             ctx.state(hash_str(&case.to_string()));
             let a = mh_run_bits(&mut mh_build(n, Some(8), false), c, d);
+            PRECISION_REPORTER_ITERS.store(0, Ordering::SeqCst);
             let b = catch(|| mh_build(n, Some(8), false).run_progress(c, d).map(|x| arr3_bits(&x.0)).map_err(|e| e.to_string())).and_then(|r| r);
+            if PRECISION_HANG.swap(false, Ordering::SeqCst) {
+                ctx.violation(Violation::new("C10:hang(core)", format!("MH run_progress with {n} chains ({c} collected, {d} discarded): the progress reporter never exits although every chain finished"), case.clone()));
+            }
             if a != b {
                 ctx.violation(Violation::new("C10:draws-differ(MH)", format!("MH run_progress vs run differ or fail: {:?}", b.as_ref().err()), case.clone()));
             } else {
                 ctx.outcome("precision-ok", 1);
             }
             let a = gibbs_build(n, Some(8)).run(c, d).map(|x| arr3_bits(&x)).map_err(|e| e.to_string());
+            PRECISION_REPORTER_ITERS.store(0, Ordering::SeqCst);
             let b = catch(|| gibbs_build(n, Some(8)).run_progress(c, d).map(|x| arr3_bits(&x.0)).map_err(|e| e.to_string())).and_then(|r| r);
+            if PRECISION_HANG.swap(false, Ordering::SeqCst) {
+                ctx.violation(Violation::new("C10:hang(core)", format!("Gibbs run_progress with {n} chains: the progress reporter never exits although every chain finished"), case.clone()));
+            }
             if a != b {
                 ctx.violation(Violation::new("C10:draws-differ(Gibbs)", format!("Gibbs run_progress vs run differ or fail: {:?}", b.as_ref().err()), case.clone()));
             } else {
@@ -988,8 +1020,18 @@ pub fn run(ctx: &Ctx) {
     let t0 = std::time::Instant::now();
     let mut lap = |name: &str| eprintln!("[C10] layer {name} done at {:.1}s", t0.elapsed().as_secs_f64());
     if on("precision") {
-        // a pass-through handler: makes the reporter's 250 ms sleep a yield, nothing else
-        verif::set_sched(Some(Arc::new(|_, _| 0)));
+        // a pass-through handler: makes the reporter's 250 ms sleep a yield; it also bounds the number of reporter
+        // iterations of one run_progress call (a reporter that never exits would otherwise hang the check itself)
+        verif::set_sched(Some(Arc::new(|label, _| {
+            if label == "reporter.top" {
+                let n = PRECISION_REPORTER_ITERS.fetch_add(1, Ordering::SeqCst);
+                if n > 3_000_000 {
+                    PRECISION_HANG.store(true, Ordering::SeqCst);
+                    panic!("reporter did not exit within 3e6 iterations");
+                }
+            }
+            0
+        })));
         precision_grid(ctx);
         verif::set_sched(None);
         lap("precision");
